@@ -114,3 +114,18 @@ func VP_C13_Boundary() {
 	vpAssert(Ntoi(Iton(k)) == k, "Ntoi(Iton(k)) == k")
 	vpReach("end")
 }
+
+// VP_C13_AnyBytes: for EVERY byte string of n bytes (all 256 values each, so
+// also well-formed multi-byte UTF-8 sequences) DNATo2Bit panics iff some byte
+// is outside aAcCgGtT.
+func VP_C13_AnyBytes() {
+	n := vpCase("n")
+	src := vpBytes("s", n)
+	all := true
+	for _, b := range src {
+		all = all && vpIsACGT(b)
+	}
+	p := vpPanics(func() { DNATo2Bit(nil, src) })
+	vpAssert(p == !all, "DNATo2Bit panics iff some byte is outside aAcCgGtT")
+	vpReach("end")
+}
